@@ -72,9 +72,74 @@ def exhaustive(tier):
 
     yield (f"all op sequences of length<={n} over 2 keys x 4 pre-existing dbs x do_deletes", gen())
 
+    def big():
+        # thousands of distinct keys in one batch (compact form, expanded in run_case)
+        for size in (1024, 1500, 2048, 4097, 5000):
+            for pattern in ("dels-then-sets", "sets-then-dels", "interleaved", "del-set-del"):
+                for dd in (False, True):
+                    yield {"big": [size, pattern], "do_deletes": dd, "exc": 0, "in_handler": False,
+                           "base": [], "ops": []}
+
+    yield ("big batches: 5 sizes up to 5000 keys x 4 write/delete patterns x do_deletes", big())
+
+
+def _run_big(case, info):
+    """One batch over thousands of keys, normal exit and one abort; last-action model."""
+    size, pattern = case["big"]
+    dd = case["do_deletes"]
+    keys = [b"k%05d" % i for i in range(size + 80)]
+    base = {k: b"old" for k in keys[::3]}
+    half = size
+    if pattern == "dels-then-sets":
+        ops = [("del", k) for k in keys[:half]] + [("set", k) for k in keys[half:]]
+    elif pattern == "sets-then-dels":
+        ops = [("set", k) for k in keys[:80]] + [("del", k) for k in keys[80:]]
+    elif pattern == "interleaved":
+        ops = [("del" if i % 2 else "set", k) for i, k in enumerate(keys)]
+    else:
+        ops = [("del", k) for k in keys] + [("set", k) for k in keys[::5]] + [("del", k) for k in keys[::10]]
+    for abort in (False, True):
+        wrapped = dict(base)
+        s = impl("construct", ScratchDB, wrapped)
+        cm = impl("batch-open", s.batch_commit, do_deletes=dd)
+        cm_enter("batch-open", cm)
+        model = {}
+        for kind, k in ops:
+            if kind == "set":
+                impl("buffered-write", s.__setitem__, k, b"new" + k)
+                model[k] = ("set", b"new" + k)
+            else:
+                impl("buffered-delete", s.__delitem__, k)
+                model[k] = ("del",)
+        expect_eq("wrapped-untouched-during-batch", wrapped, base, "wrapped db during a big batch")
+        if abort:
+            cm_exit("batch-exit", cm, Abort("injected"))
+            final = base
+        else:
+            cm_exit("batch-exit", cm)
+            final = dict(base)
+            for k, act in model.items():
+                if act[0] == "set":
+                    final[k] = act[1]
+                elif dd:
+                    final.pop(k, None)
+        missing = [k for k in final if k not in wrapped]
+        extra = [k for k in wrapped if k not in final]
+        expect("commit-applies-buffer" if not abort else "abort-leaves-wrapped-unchanged",
+               wrapped == final,
+               lambda: f"big batch ({size} keys, {pattern}, do_deletes={dd}, abort={abort}): "
+                       f"{len(missing)} entries missing e.g. {missing[:1]}, {len(extra)} unexpected e.g. {extra[:1]}")
+        expect_eq("buffer-empty-after", impl("buffer-empty-after", s.copy), final, "copy() after the big batch")
+        info.count("exits")
+    info.label("big-batch")
+    info.nontrivial = True
+    return info
+
 
 def run_case(case):
     info = Info()
+    if case.get("big"):
+        return _run_big(case, info)
     base = {UNIVERSE[k]: v for k, v in case["base"]}
     ops = [(kind, UNIVERSE[k], v) for kind, k, v in case["ops"]]
     dd = case["do_deletes"]
